@@ -404,6 +404,13 @@ func observe(c *chain, g *gen, maxBlock, maxTxn uint32, shape string) (*obs, err
 	var items []string
 	var jpool []map[string]interface{}
 	nCreateOK, nConf := 0, 0
+	var poolHashes []cipher.SHA256
+	for _, ut := range pool {
+		poolHashes = append(poolHashes, ut.Transaction.Hash())
+	}
+	if !nk.DistinctPrefixes(poolHashes) {
+		return nil, fmt.Errorf("two pool transaction hashes share their first 8 bytes")
+	}
 	seenIn := map[cipher.SHA256]int{}
 	for _, ut := range pool {
 		t := ut.Transaction
@@ -472,6 +479,55 @@ func observe(c *chain, g *gen, maxBlock, maxTxn uint32, shape string) (*obs, err
 	return o, nil
 }
 
+// boundaryLimit picks a block size limit equal to (or one byte off) the total
+// size of the first k creation-valid pool transactions in fee order. The order
+// computed here only steers generation; it is not part of the oracle.
+func boundaryLimit(c *chain, r *Rng) (uint32, bool) {
+	c.pub.V.Config.CreateBlockVerifyTxn.MaxTransactionSize = params.UserVerifyTxn.MaxTransactionSize
+	pool, err := c.pub.V.GetAllUnconfirmedTransactions()
+	if err != nil {
+		return 0, false
+	}
+	type ent struct {
+		fpk  uint64
+		h    cipher.SHA256
+		size uint32
+	}
+	var es []ent
+	for _, ut := range pool {
+		v, err := c.w.Verify(c.pub, ut.Transaction, c.pub.V.Config.CreateBlockVerifyTxn, false)
+		if err != nil || !(v.Hard && v.Soft && v.FeeOK) || v.Size == 0 {
+			continue
+		}
+		k := v.Fee * 1024
+		if v.Fee != 0 && k/v.Fee != 1024 {
+			k = ^uint64(0)
+		}
+		es = append(es, ent{k / uint64(v.Size), ut.Transaction.Hash(), v.Size})
+	}
+	if len(es) == 0 {
+		return 0, false
+	}
+	sort.Slice(es, func(i, j int) bool {
+		if es[i].fpk != es[j].fpk {
+			return es[i].fpk > es[j].fpk
+		}
+		return strings.Compare(string(es[i].h[:]), string(es[j].h[:])) < 0
+	})
+	k := 1 + r.Intn(len(es))
+	var sum uint32
+	for i := 0; i < k; i++ {
+		sum += es[i].size
+	}
+	switch r.Intn(4) {
+	case 0:
+		sum++
+	case 1:
+		sum--
+	}
+	return sum, true
+}
+
 func res2json(p bool, err error) string {
 	if p {
 		return "panic"
@@ -486,6 +542,9 @@ func run(args []string) error {
 	f := ParseFlags("c05", args)
 	r := NewRng(f.Seed)
 	n := f.Budget(100, 2000)
+	if f.Tier == "search" && n > 400 {
+		n = 400 // failing-input search after a broken proof / correspondence: 4x the quick budget, other seeds
+	}
 	o := NewOut()
 	hist := Hist{}
 	var cases []string
@@ -615,6 +674,14 @@ func run(args []string) error {
 			default: // outside Config.Verify's invariant: a txn may be larger than the block
 				maxBlock = uint32(100 + r.Intn(300))
 				maxTxn = params.UserVerifyTxn.MaxTransactionSize
+			}
+			if !forceDefault && r.Chance(25) {
+				// block limit exactly at (or one byte around) a prefix sum of the valid
+				// transactions in fee order: the boundary of TruncateBytesTo
+				if mb, ok := boundaryLimit(c, r); ok {
+					maxBlock, maxTxn = mb, params.UserVerifyTxn.MaxTransactionSize
+					hist.Add("limit:at-prefix-sum")
+				}
 			}
 			ob, err := observe(c, g, maxBlock, maxTxn, strings.Join(shapeLog, ","))
 			if err != nil {
